@@ -475,6 +475,10 @@ fn gen_stream(c: &mut Choices) -> (PcapFile, Option<u8>) {
         let (sec, usec) = if c.chance(1, 5) { (c.u32(), c.u32()) } else { (1_700_000_000 + c.below(1000) as u32, c.below(1_000_000) as u32) };
         f.recs.push(Rec { sec, usec, wirelen, data });
     }
+    // every third stream: the snap length is exactly the longest captured length
+    if !f.recs.is_empty() && c.chance(1, 3) {
+        f.hdr.snaplen = f.recs.iter().map(|r| r.data.len() as u32).max().unwrap_or(0);
+    }
     (f, uniform)
 }
 
